@@ -252,6 +252,7 @@ def scenarios():
             # ... with a keep-alive time much longer than the patience of the monitor (a parked connection over the
             # budget then stalls the newcomer for the whole keep-alive time, not for a tick or two)
             out.append(("keepalive-budget-long", params(t, w, 9), seq + [["loop", []]] * 6))
+            out.append(("keepalive-budget-long-app-connection-header", dict(params(t, w, 9), app_conn=True), seq + [["loop", []]] * 6))
         if k > 0 and w > t:
             pf = dict(p, fine=True)
             first = [["loop", [["connect", 1], ["send", 1, "k"]]], ["loop", []], ["sweep", [["start", 1]]],
@@ -530,6 +531,8 @@ def c13(ctx):
         if i % 5 in (1, 3):
             pr["fine"] = True        # 40 %: pool completions interleaved at visible operations
             nfine += 1
+        if i % 4 == 2:
+            pr["app_conn"] = True    # the application sets a Connection: keep-alive header on its responses
         r = drv.run_random(pr, random.Random(rng.getrandbits(48)), budget=budget, cap=cap,
                            p_step=rng.choice([0.3, 0.45, 0.6]),
                            weights={"tick": rng.choice([0.5, 1, 3])})
